@@ -231,6 +231,7 @@ func runC04(c *Ctx) {
 	// ---- C04.f / C04.g ----
 	c.clause("C04.f", "T2", "prioritized-task brackets are closed on all exits: a layer that makes a mount/prefetch/check fail must not leave background work blocked forever", 5)
 	c.doDonePairing()
+	clauseBatchPathOnlyForAlignedChunks(c, "C04.j")
 	c.clause("C04.i", "T5", "a channel filled by worker goroutines that the parent only drains after waiting for them has room for one message per worker (otherwise a second failing worker blocks forever and the wait never returns)", 1)
 	for _, f := range scope {
 		eachInstr(f, func(i ssa.Instruction) {
